@@ -141,6 +141,25 @@ def agree_ref(ctx, fi, ref_src, title, what=('return', 'heap', 'substores'), rul
                             eb.data['value'], node=ea.node, construct=ea.text()[:80] + ' [value]')
                 ctx.formula(rule, f'{title}: condition of the .{ea.data["name"]} store == reference', fi, ea.cond(), eb.cond(),
                             node=ea.node, construct=ea.text()[:80] + ' [guard]')
+    if 'loopstores' in what:
+        def sell(II, own):
+            return [e for e in II.events if e.kind == 'store' and e.data.get('target') == 'name' and e.loops
+                    and (own is None or e.func.short == own)]
+        la, lb = sell(I, fi.short), sell(IR, None)
+        if len(la) != len(lb):
+            ctx.ob(rule, f'{title}: same number of loop-body assignments as the reference', fi, False,
+                   {'code': [e.text()[:80] for e in la], 'reference': [e.text()[:80] for e in lb]}, node=fi.node,
+                   construct='loop-body assignments')
+        else:
+            for ea, eb in zip(la, lb):
+                ctx.formula(rule, f'{title}: loop-body value of `{ea.data["name"]}` == reference', fi, ea.data['value'],
+                            eb.data['value'], node=ea.node, construct=ea.text()[:80] + ' [loop value]')
+            for ea, eb in zip([e for e in I.events if e.kind == 'loop' and e.func.short == fi.short],
+                              [e for e in IR.events if e.kind == 'loop']):
+                ia, ib = ea.data['info'], eb.data['info']
+                if 'trip' in ia and 'trip' in ib:
+                    ctx.formula(rule, f'{title}: trip count of the loop == reference', fi, ia['trip'], ib['trip'],
+                                node=ea.node, construct=ea.text()[:60] + ' [trip count]')
     if 'calls' in what:
         def selc(II, own):
             return [e for e in II.events if e.kind == 'call' and (own is None or e.func.short == own)
